@@ -83,8 +83,9 @@ def agg_property(run):
                limit=4000 if q else 40000)
     # binding B: executions of the real aggregator on programs TLC did not choose, validated by TLC
     import aggtrace
-    traces = aggtrace.random_batch(run.seed, 400 if q else 4000, flags="random" if pid == "C08" else "default")
-    aggtrace.validate_batch(run, traces)
+    traces = aggtrace.random_batch(run.seed, 400 if q else 2000, flags="random" if pid == "C08" else "default")
+    for k in range(0, len(traces), 500):       # batches: TLC deserialises one JSON document per run
+        aggtrace.validate_batch(run, traces[k:k + 500])
     run.sample({"recorded_trace": traces[0]["id"], "events": len(traces[0]["events"]),
                 "first_event": traces[0]["events"][0] if traces[0]["events"] else None})
     run.exhaustive = True
